@@ -429,7 +429,7 @@ impl GUrl {
     }
 }
 
-const SUFFIXES: &[&str] = &["", "", "", "/", "/x", "x", "/..", "/../a", "/a..b", "/%2e%2e/", "/%41", "/compute?", ";v=1"];
+const SUFFIXES: &[&str] = &["", "", "", "/", "/x", "x", "/..", "/../a", "/a..b", "/%2e%2e/", "/%41", "/compute?", ";v=1", "/a-path-segment-that-is-longer-than-the-usual-ones/0123456789/abcdefghijklmnopqrstuvwxyz"];
 
 fn query_piece() -> impl Strategy<Value = String> {
     prop_oneof![
